@@ -123,6 +123,21 @@ func (l *Ledger) Apply(b types.Block) (*Ledger, error) {
 	return l.next(b, cs, cau), nil
 }
 
+// ApplyUnchecked applies b without validating it: the ledger a node would hold
+// had it trusted the block (what a pre-validated batch built on top of a block
+// that was only header-checked is "valid relative to"). Returns nil if
+// application itself is impossible.
+func (l *Ledger) ApplyUnchecked(b types.Block) (out *Ledger) {
+	defer func() {
+		if recover() != nil {
+			out = nil
+		}
+	}()
+	bs := l.Supplement(b)
+	cs, cau := consensus.ApplyBlock(l.State, b, bs, l.Env.TargetTimestamp(l.State))
+	return l.next(b, cs, cau)
+}
+
 func (l *Ledger) next(b types.Block, cs consensus.State, cau consensus.ApplyUpdate) *Ledger {
 	n := &Ledger{
 		Env:    l.Env,
